@@ -11,9 +11,9 @@
 package engine
 
 import (
+	"bytes"
 	"crypto/sha256"
 	"encoding/binary"
-	"bytes"
 	"encoding/json"
 	"fmt"
 	"os"
@@ -227,10 +227,14 @@ type Scenario struct {
 	// after program start in every execution. The scenario must be registered in FreshRegistry
 	// under its name so that the child process can find it.
 	Fresh bool
+	// Prop is the property (worker entry) the scenario belongs to; set by the explorer, used to
+	// address the scenario in a child process.
+	Prop string
 }
 
-// FreshRegistry: constructors of the scenarios that run with Fresh, by name.
-var FreshRegistry = map[string]func() *Scenario{}
+// PendingFresh is set in a child process: the first scenario the property's replayer resolves by
+// name is executed once as requested, its outcome printed, and the process ends.
+var PendingFresh *FreshRequest
 
 // Run is the outcome of one execution (wherever it ran).
 type Run struct {
@@ -262,6 +266,7 @@ func (r *Run) Fingerprints() []uint32 {
 
 // FreshRequest is what a child process is asked to execute.
 type FreshRequest struct {
+	Prop    string   `json:"prop"`
 	Unit    string   `json:"unit"`
 	Choices []int    `json:"choices"`
 	FPs     []uint32 `json:"fps"`
@@ -303,13 +308,9 @@ func Execute(sc *Scenario, choices []int, fps []uint32, trace bool) *Run {
 }
 
 func executeFresh(sc *Scenario, choices []int, fps []uint32, trace bool) *Run {
-	base := sc.Name
-	for _, suf := range []string{"#race", "#rev"} {
-		base = strings.TrimSuffix(base, suf)
-	}
-	req := FreshRequest{Unit: base, Choices: choices, FPs: fps, Trace: trace, YieldAt: yieldNames(sc), Policy: sc.Opt.Policy}
+	req := FreshRequest{Prop: sc.Prop, Unit: sc.Name, Choices: choices, FPs: fps, Trace: trace, YieldAt: yieldNames(sc), Policy: sc.Opt.Policy}
 	in, _ := json.Marshal(req)
-	cmd := exec.Command(os.Args[0], "-fresh-exec")
+	cmd := exec.Command(os.Args[0], "-fresh-exec", "-prop", sc.Prop)
 	cmd.Env = append(os.Environ(), "VERIF_FRESH_CHILD=1")
 	cmd.Stdin = bytes.NewReader(in)
 	out, err := cmd.Output()
@@ -321,31 +322,34 @@ func executeFresh(sc *Scenario, choices []int, fps []uint32, trace bool) *Run {
 	if err := json.Unmarshal(out, r); err != nil {
 		r.Diverged = "child process output unreadable: " + err.Error()
 	}
+	if r.Diverged != "" && os.Getenv("VERIF_DEBUG_FRESH") != "" {
+		fmt.Fprintf(os.Stderr, "FRESH-DIVERGED %s req=%s\n", r.Diverged, string(in))
+	}
 	return r
 }
 
-// FreshChild is the main of a child process: one execution of the requested scenario.
-func FreshChild() {
+// FreshChild is the main of a child process: the property's replayer is asked for the unit, and
+// ReplayScenario, instead of replaying, executes the scenario once as requested (runPending).
+func FreshChild(replay func(Replay) []*Finding) {
 	var req FreshRequest
 	if err := json.NewDecoder(os.Stdin).Decode(&req); err != nil {
 		fmt.Fprintln(os.Stderr, "BROKEN:", err)
 		os.Exit(2)
 	}
-	mk := FreshRegistry[req.Unit]
-	if mk == nil {
-		fmt.Fprintln(os.Stderr, "BROKEN: unknown fresh scenario", req.Unit)
-		os.Exit(2)
-	}
-	sc := mk()
-	sc.Opt.Policy = req.Policy
-	if len(req.YieldAt) > 0 {
-		sc.Opt.YieldAt = map[string]bool{}
-		for _, n := range req.YieldAt {
-			sc.Opt.YieldAt[n] = true
-		}
-	}
-	r := Execute(sc, req.Choices, req.FPs, req.Trace)
+	PendingFresh = &req
+	replay(Replay{Unit: req.Unit, YieldAt: req.YieldAt})
+	fmt.Fprintln(os.Stderr, "BROKEN: the replayer did not resolve unit", req.Unit)
+	os.Exit(2)
+}
+
+func runPending(sc *Scenario) {
+	req := PendingFresh
+	PendingFresh = nil
+	cp := *sc
+	cp.Fresh = false
+	r := Execute(&cp, req.Choices, req.FPs, req.Trace)
 	json.NewEncoder(os.Stdout).Encode(r)
+	os.Exit(0)
 }
 
 type SConfig struct {
@@ -426,7 +430,19 @@ func ExploreS(ctx *Ctx, sc *Scenario, cfg SConfig) {
 		ExploreS(ctx, &rev, cfg)
 		return
 	}
-	names := exploreS1(ctx, sc, cfg)
+	if sc.Prop == "" {
+		cp := *sc
+		cp.Prop = ctx.Res.Property
+		sc = &cp
+	}
+	names, again := exploreS1(ctx, sc, cfg)
+	if again {
+		ctx.Res.Note("unit %s: the executions of one process are not independent (state outside the scenario survives from one execution to the next): explored again with every execution in a process of its own", sc.Name)
+		fr := *sc
+		fr.Fresh = true
+		sc = &fr
+		names, _ = exploreS1(ctx, sc, cfg)
+	}
 	if len(names) > 0 && sc.Opt.YieldAt == nil {
 		// race-directed second phase. Scheduling points at synchronisation operations are enough
 		// only for race-free code; the monitor found conflicting accesses unordered by
@@ -443,12 +459,16 @@ func ExploreS(ctx *Ctx, sc *Scenario, cfg SConfig) {
 		}
 		c2 := cfg
 		c2.Shard, c2.NShards = 0, 1
-		exploreS1(ctx, &rv, c2)
+		if _, again := exploreS1(ctx, &rv, c2); again {
+			rv.Fresh = true
+			exploreS1(ctx, &rv, c2)
+		}
 	}
 }
 
 // exploreS1 is one exploration of sc; it returns the names of the locations found in data races.
-func exploreS1(ctx *Ctx, sc *Scenario, cfg SConfig) []string {
+func exploreS1(ctx *Ctx, sc *Scenario, cfg SConfig) ([]string, bool) {
+	needFresh := false
 	raceNames := map[string]bool{}
 	racy := func() []string {
 		var out []string
@@ -475,6 +495,13 @@ func exploreS1(ctx *Ctx, sc *Scenario, cfg SConfig) []string {
 	runOne := func(b branch, mine bool) *Run {
 		prefix := b.choices
 		x := Execute(sc, prefix, b.fps, false)
+		if x.Diverged != "" && !sc.Fresh && os.Getenv("VERIF_FRESH_CHILD") == "" {
+			// the executions of this process are not independent of each other: something outside
+			// the scenario (package-level state of the code under test) survives from one to the
+			// next. Stop, and explore the unit again with every execution in a process of its own.
+			needFresh, stop = true, true
+			return x
+		}
 		if !mine {
 			return x
 		}
@@ -502,6 +529,12 @@ func exploreS1(ctx *Ctx, sc *Scenario, cfg SConfig) []string {
 			// same observation
 			xr := Execute(sc, x.Choices(), x.Fingerprints(), false)
 			us.Audits++
+			if (xr.Diverged != "" || xr.Obs != obs) && !sc.Fresh && os.Getenv("VERIF_FRESH_CHILD") == "" {
+				// the second run of the same choices in this process went differently: state outside
+				// the scenario survived the first one. Explore the unit in processes of their own.
+				needFresh, stop = true, true
+				return x
+			}
 			if xr.Diverged != "" {
 				fs = append(fs, &Finding{Sig: "BROKEN:nondeterministic", Msg: "re-running an execution from its own choices: " + xr.Diverged})
 			} else if xr.Obs != obs {
@@ -517,6 +550,10 @@ func exploreS1(ctx *Ctx, sc *Scenario, cfg SConfig) []string {
 		if len(fs) > 0 {
 			// re-run with tracing: signatures carry code sites (function names)
 			xt := Execute(sc, x.Choices(), x.Fingerprints(), true)
+			if xt.Diverged != "" && !sc.Fresh && os.Getenv("VERIF_FRESH_CHILD") == "" {
+				needFresh, stop = true, true
+				return x
+			}
 			broken := fs
 			fs = xt.Findings
 			for _, f := range broken {
@@ -605,22 +642,22 @@ func exploreS1(ctx *Ctx, sc *Scenario, cfg SConfig) []string {
 		res.Exhaustive = false
 		for _, c := range res.Caps {
 			if c == "time cap hit: some units not started" {
-				return nil
+				return nil, false
 			}
 		}
 		res.Caps = append(res.Caps, "time cap hit: some units not started")
-		return nil
+		return nil, false
 	}
 	n := cfg.NShards
 	if n <= 1 {
 		dfs(branch{})
 		us.Distinct = len(distinct)
-		return racy()
+		return racy(), needFresh
 	}
 	// level 0
 	root := runOne(branch{}, cfg.Shard == 0)
 	if root.Diverged != "" {
-		return nil
+		return nil, needFresh
 	}
 	for _, c1 := range children(root, nil) {
 		if stop {
@@ -640,7 +677,7 @@ func exploreS1(ctx *Ctx, sc *Scenario, cfg SConfig) []string {
 		}
 	}
 	us.Distinct = len(distinct)
-	return racy()
+	return racy(), needFresh
 }
 
 func yieldNames(sc *Scenario) []string {
@@ -729,6 +766,9 @@ func ReplayScenario(scs []*Scenario, rp Replay) []*Finding {
 				rd.Opt.YieldAt[n] = true
 			}
 			sc = &rd
+		}
+		if PendingFresh != nil {
+			runPending(sc)
 		}
 		x := RunOnceFP(sc, rp.Choices, rp.FPs, true)
 		fs := StandardFindings(sc, x)
